@@ -28,10 +28,12 @@ IMPORTS = ("From TxV Require Import Core.Base Core.Show Model.PegSyntax Model.Pe
 FUEL = 600
 # the regular expressions the checker assumes never to match the empty string (mirror of
 # Model/PegEquiv.v textx_nonempty_patterns; compared with the Coq value on every run and checked on every text)
-NONEMPTY_PATTERNS = [r"\w+", r"'((\\')|[^'])*'", r'''"((\\")|[^"])*"''']
+NONEMPTY_PATTERNS = [r"\w+", r"'((\\')|[^'])*'", r'''"((\\")|[^"])*"''',
+                     r"(ID|BOOL|INT|FLOAT|STRING|NUMBER|BASETYPE)\b(?!\.\w)", r"\w+(\.\w+)*"]
 # regex triples (p1, p2, p3) of the acceptance-only theorem's oracle hypothesis: p3 matches at a position with the
 # length p1 matches there, else with the length p2 matches there (mirror of Model/PegEquiv.v textx_alt_patterns)
-ALT_PATTERNS = [[r"'((\\')|[^'])*'", r'''"((\\")|[^"])*"''', r'''("(\\"|[^"])*")|(\'(\\\'|[^\'])*\')''']]
+ALT_PATTERNS = [[r"'((\\')|[^'])*'", r'''"((\\")|[^"])*"''', r'''("(\\"|[^"])*")|(\'(\\\'|[^\'])*\')'''],
+                [r"(ID|BOOL|INT|FLOAT|STRING|NUMBER|BASETYPE)\b(?!\.\w)", r"\w+(\.\w+)*", r"\w+(\.\w+)*"]]
 # the oracle as a per-oracle-id association list (same function as Peg.orc_of on the flat table, faster to evaluate)
 DEFS = """Definition orc2 (t : list (list (nat * nat))) (o p : nat) : option nat :=
   (fix go (l : list (nat * nat)) : option nat :=
